@@ -66,8 +66,15 @@ private:
 }   // namespace
 
 uint32_t nextprime(uint32_t n) {
-    PrimesGenerator gen;
-    return gen.next_prime(n);
+    if (n <= 2) {
+        return 2;
+    }
+    //test odd candidates by trial division instead of enumerating every prime below n
+    uint32_t val = n | 1u;
+    while (!isprime(val)) {
+        val += 2;
+    }
+    return val;
 }
 
 arr_int primes(uint32_t n) {
